@@ -49,7 +49,13 @@ BUILTIN = [
      "suffix": ".go", "formatter": "goimports"},
     {"name": "testify-inpackage-noop", "template": "testify", "dir": "{{.InterfaceDir}}", "pkgname": "{{.SrcPackageName}}",
      "suffix": ".go", "formatter": "noop", "data": {"unroll-variadic": True}},
+    # every per-file parameter takes DIFFERENT values in the files of one run (by package): any run-global state that
+    # remembers a previous file's template / formatter / force-file-write becomes order dependent
+    {"name": "mixed-per-package", "template": "testify", "dir": "{{.InterfaceDir}}/mocks", "pkgname": "mocks",
+     "suffix": ".go", "formatter": "goimports", "mixed": True},
 ]
+MIXED = [{"template": "testify", "formatter": "goimports", "force-file-write": True},
+         {"template": "matryer", "formatter": "noop", "force-file-write": False}]
 
 
 def src_text(k):
@@ -74,6 +80,8 @@ def schema_of(c, s):
         return None
     if mode == "same":
         return "A"
+    if mode == "unfetchable":
+        return "X"
     return "A" if s % 2 == 1 else "B"
 
 
@@ -99,8 +107,12 @@ def build_world(ctx, wi, c, profile):
             extra["template-data"] = {"marker": f"{wdir}:{k + 1}", "nested": {"lvl": {"own": k + 1}}}
             if g["mode"] in ("differ-valid", "differ-invalid"):
                 extra["template-schema"] = "file://" + str(runp / f"schema{schema_of(c, k + 1)}.json")
+            if g["mode"] == "unfetchable":          # Requires(s) of Order.tla: even settings sources require the schema
+                extra["require-template-schema-exists"] = (k + 1) % 2 == 0
         else:
             extra["template-data"] = dict(profile.get("data", {}))
+            if profile.get("mixed"):
+                extra.update(MIXED[k % 2])
         conf = rec_pkg_config(c, k, wdir, extra)
         ent = {"config": conf}
         if g["ents"] > 0:
@@ -122,6 +134,8 @@ def build_world(ctx, wi, c, profile):
             conf["template-data"]["need"] = True
         if g["mode"] == "same":
             conf["template-schema"] = "file://" + str(runp / "schemaA.json")
+        if g["mode"] == "unfetchable":
+            conf["template-schema"] = "file://" + str(runp / "no-such-schema.json")
         files["probe.templ"] = PROBE
         files["schemaA.json"] = json.dumps(SCHEMA_A)
         files["schemaB.json"] = json.dumps(SCHEMA_B)
@@ -186,6 +200,7 @@ def orders_of(trace):
 
 def run_world(ctx, w, cap, min_runs):
     """k fresh runs from identical inputs (same directory, same environment), then two re-runs over the output."""
+    cap, min_runs = max(cap, w.get("cap", 0)), max(min_runs, w.get("min_runs", 0))
     runs = []
     t_first = None
     seen1, seenf = set(), set()
@@ -210,7 +225,7 @@ def run_world(ctx, w, cap, min_runs):
         if r + 1 >= min_runs and enough1 and enoughf:
             break
     reruns = []
-    if runs[-1]["exit"] == 0:
+    if runs[-1]["exit"] == 0 and not (w["profile"] or {}).get("mixed"):
         for r in range(2):
             res = run_bin(ctx, w["run"], timeout=240, tag=f"i{r}")
             if res.timed_out:
@@ -277,7 +292,37 @@ GUARDS = {
     "many-files": lambda c: len(c["outcome"]["files"]) >= 5 and c["outcome"]["exit"] == 0,
     "several-mocks-per-file": lambda c: c["outcome"]["exit"] == 0 and any(len(f["content"]["mocks"]) >= 3 for f in c["outcome"]["files"]),
     "no-schema": lambda c: c["W"]["g"]["mode"] == "none" and len(c["outcome"]["files"]) >= 2,
+    # one template with an unretrievable schema, shared by >= 4 files with mixed require-template-schema-exists
+    "unfetchable-mixed": lambda c: c["W"]["g"]["mode"] == "unfetchable" and c["outcome"]["exit"] == 1 and len(c["outcome"]["files"]) >= 4 and
+    len({min(c["expect"][k - 1]["allowed"]) % 2 for k in c["outcome"]["generated"]}) == 2,
+    "unfetchable-not-required": lambda c: c["W"]["g"]["mode"] == "unfetchable" and c["outcome"]["exit"] == 0 and len(c["outcome"]["files"]) >= 2,
+    # a nested pair of recursive packages with a package below both, plus a recursive package unrelated to the pair
+    "three-recursive": lambda c: three_recursive(c),
 }
+
+
+def ancestors(W, k):
+    out = []
+    p = W["par"][k - 1]
+    while p:
+        out.append(p)
+        p = W["par"][p - 1]
+    return out
+
+
+def three_recursive(c):
+    W = c["W"]
+    rec = [k for k in range(1, W["n"] + 1) if W["on"][k - 1] and W["rec"][k - 1] == "T"]
+    if len(rec) < 3:
+        return False
+    for k, e in enumerate(c["expect"]):
+        if W["on"][k] or len(e["recanc"]) < 2 or (k + 1) not in c["outcome"]["generated"]:
+            continue
+        pair = set(e["recanc"])
+        for r in rec:
+            if r not in pair and not (pair & set(ancestors(W, r))) and not any(r in ancestors(W, p_) for p_ in pair):
+                return True
+    return False
 
 
 def choose(ctx, cases, thorough):
@@ -302,23 +347,31 @@ def choose(ctx, cases, thorough):
     take(GUARDS["schemas-differ-invalid"], 2 * per, probe)
     take(GUARDS["schemas-differ-valid"], 1 * per, probe)
     take(lambda c: GUARDS["many-files"](c) or GUARDS["several-mocks-per-file"](c), 1 * per, probe, lambda c: c["W"]["g"]["mode"] == "same")
+    take(GUARDS["unfetchable-mixed"], 2 * per, probe)
+    take(GUARDS["unfetchable-not-required"], 1 * per, probe)
+    n0 = len(probe)
+    take(GUARDS["three-recursive"], 3 * per, probe)
+    long_runs = {i for i, _ in probe[n0:]}          # an inconsistent sort needs an unlucky map order: more runs
     if thorough:
         take(lambda c: True, 30, probe)
     b = []
     take(lambda c: GUARDS["no-schema"](c) and GUARDS["nested-recursive"](c), 2 * per, b)
     take(lambda c: GUARDS["no-schema"](c) and GUARDS["several-mocks-per-file"](c), 2 * per, b)
     take(lambda c: GUARDS["no-schema"](c) and "T" in c["W"]["rec"], 1 * per, b)
-    take(GUARDS["no-schema"], (1 * per) if not thorough else 40, b)
+    take(GUARDS["no-schema"], (2 * per) if not thorough else 40, b)
     # the first built-in world has nested recursive packages: its mocks go to a directory BELOW the sources, which a
     # re-run discovers as a new sub-package; the other layouts rotate with the seed
     sub = next(p for p in BUILTIN if p["name"] == "testify-subdir-noop")
-    rest = [p for p in BUILTIN if p is not sub]
+    mixed = next(p for p in BUILTIN if p.get("mixed"))
+    rest = [p for p in BUILTIN if p is not sub and p is not mixed]
     for n, (i, _) in enumerate(b):
         if n % len(BUILTIN) == 0:
             builtin.append((i, sub))
+        elif n % len(BUILTIN) == 1:
+            builtin.append((i, mixed))
         else:
-            builtin.append((i, rest[(n - 1 + ctx.seed) % len(rest)]))
-    return probe + builtin
+            builtin.append((i, rest[(n - 2 + ctx.seed) % len(rest)]))
+    return probe + builtin, long_runs
 
 
 def run(ctx):
@@ -328,23 +381,25 @@ def run(ctx):
     import concurrent.futures as cf
     with cf.ThreadPoolExecutor(max_workers=2) as ex:
         fb = ex.submit(ctx.mockery)
-        ft = ex.submit(tlc_job, ctx, "order", "Order", f"Order_{tier}.cfg", 6, 2400, thorough)
+        ft = ex.submit(tlc_job, ctx, "order", "Order", f"Order_{tier}.cfg", 5, 2400, thorough)
+        fd = ex.submit(tlc_job, ctx, "orderdeep", "Order", f"Order_deep_{tier}.cfg", 3, 2400, thorough)
         fb.result()
-        r = ft.result()
-    ctx.cov["states"] += r.distinct
-    ctx.cov["transitions"] += r.generated
-    tick(ctx, "tlc_and_build", t0)
-    if r.violated:
-        ctx.note(f"model-level: {r.violated} violated on Order.tla (prediction only; the runs decide)")
-    elif not r.ok:
-        raise MachineryError("TLC failed on Order:\n" + r.tail())
-    if thorough:
-        z = final_coverage_zero(r, ["Order", "Recursive"])
-        if z:
-            raise MachineryError(f"vacuous: actions never taken: {z}")
+        results = [ft.result(), fd.result()]
     uniq = {}
-    for c in r.prints("CASE"):                      # TLC may evaluate the exporting constraint twice for a state
-        uniq.setdefault(json.dumps(c["W"], sort_keys=True), c)
+    for r in results:
+        ctx.cov["states"] += r.distinct
+        ctx.cov["transitions"] += r.generated
+        if r.violated:
+            ctx.note(f"model-level: {r.violated} violated on Order.tla/{r.cfg} (prediction only; the runs decide)")
+        elif not r.ok:
+            raise MachineryError(f"TLC failed on Order/{r.cfg}:\n" + r.tail())
+        if thorough and r.cfg.startswith("Order_thorough"):
+            z = final_coverage_zero(r, ["Order", "Recursive"])
+            if z:
+                raise MachineryError(f"vacuous: actions never taken: {z}")
+        for c in r.prints("CASE"):                  # TLC may evaluate the exporting constraint twice for a state
+            uniq.setdefault(json.dumps(c["W"], sort_keys=True), c)
+    tick(ctx, "tlc_and_build", t0)
     cases = [uniq[k] for k in sorted(uniq)]
     if len(cases) < 500:
         raise MachineryError(f"Order exported only {len(cases)} worlds: vacuous")
@@ -353,7 +408,7 @@ def run(ctx):
             raise MachineryError("vacuous: no exported world with " + name)
     if not any(c["outcome"]["exit"] == 1 for c in cases):
         raise MachineryError("vacuous: no world whose contract outcome is a failing run")
-    chosen = choose(ctx, cases, thorough)
+    chosen, long_runs = choose(ctx, cases, thorough)
     if ctx.replay:
         det = json.loads(Path(ctx.replay).read_text())["detail"]
         prof = next((p for p in BUILTIN if p["name"] == det.get("profile")), None)
@@ -363,6 +418,9 @@ def run(ctx):
     cap, min_runs = (30, 6) if thorough else (8, 3)
     t0 = time.time()
     worlds = [build_world(ctx, n, cases[i], prof) for n, (i, prof) in enumerate(chosen)]
+    for w, (i, _) in zip(worlds, chosen):
+        if i in long_runs:
+            w["cap"], w["min_runs"] = (40, 16) if thorough else (14, 10)
     worlds = par_map(lambda w: run_world(ctx, w, cap, min_runs), worlds, workers=10)
     tick(ctx, "runs", t0)
     t0 = time.time()
